@@ -10,6 +10,23 @@ sys.path.insert(0, os.path.dirname(os.path.dirname(os.path.abspath(__file__))))
 from harness import core  # noqa: E402
 
 
+def header_modules():
+    """Chi.* modules named by the Coq headers of the loaded harness modules (they must be compiled before the
+    generated case files can import them)."""
+    import re
+    found = []
+    for name, m in list(sys.modules.items()):
+        if not name.startswith('harness.'):
+            continue
+        for v in vars(m).values():
+            if isinstance(v, str) and 'Require Import' in v:
+                for grp in re.findall(r'From Chi Require Import ([^\n]*?)\.\s*(?:\n|$)', v):
+                    for mod in grp.split():
+                        if mod not in found:
+                            found.append(mod)
+    return found
+
+
 def main():
     ap = argparse.ArgumentParser()
     ap.add_argument('pid')
@@ -28,7 +45,7 @@ def main():
     try:
         if not a.no_proofs:
             ck.log('building proofs')
-            ck.build_proofs(mod.THEOREMS)
+            ck.build_proofs(mod.THEOREMS, ties=header_modules())
         mod.run(ck)
     except Exception:
         ck.broken.append('harness error: ' + traceback.format_exc()[-1500:])
